@@ -1,13 +1,1190 @@
-//! C13 — stub (not built yet; not registered in MANIFEST.json).
-use super::*;
+//! C13 — saving to a path is all-or-nothing under I/O failure (level: fault enumeration).
+//!
+//! Legs (DESIGN 4 C13):
+//!  * `fsize`   (a) RLIMIT_FSIZE = N around exactly one path-based save in a helper process
+//!  * `target`  (b) unwritable target: missing directory, destination is a directory, the
+//!                  temp-file name is a directory
+//!  * `sink`    (c) failing caller-supplied sink for write_writer / write_writer_light /
+//!                  csv::write_writer (in-process, proptest)
+//!  * `kill`    (d) SIGKILL on entry of the k-th file syscall of the save (strace injection)
+//!  * `errno`   (d') the k-th openat / write / lseek / rename ... of the save fails (strace)
+//!  * `observer`(e) a concurrent reader while two workbooks are saved alternately
+//!
+//! Oracle = the statement, nothing more:
+//!  * the call panics (or the process crashes)                     -> violation
+//!  * `Err`  -> whatever was at the destination before is still there, byte for byte
+//!              (file bytes, or "absent", or the same directory listing)
+//!  * `Ok`   -> the destination is a regular file that is a complete new file: csv: equal
+//!              to an in-memory save; xlsx: a zip whose every entry reads with a good CRC,
+//!              which the library reads back to the same cells as an in-memory save of the
+//!              same workbook; password: a valid compound file whose package decrypts
+//!              (independent agile decryptor) to such a zip
+//!  * killed / observed -> destination is byte-identical to the old content or a complete
+//!              new file
+//!  * sink   -> no panic; a sink that reported a hard failure yields `Err`; `Ok` only with
+//!              the complete content delivered
+//! Leftover temp files are counted in the evidence (`leftover_tmp`) and never judged.
+use super::Prop;
+use crate::engine::*;
+use crate::gen::faultsave::*;
+use proptest::prelude::*;
+use rayon::prelude::*;
+use serde::{Deserialize, Serialize};
+use serde_json::{json, Value};
+use std::collections::{BTreeMap, BTreeSet, HashMap};
+use std::path::{Path, PathBuf};
+use std::sync::atomic::{AtomicBool, AtomicU64, Ordering};
+use std::sync::{Arc, Mutex, OnceLock};
 
 pub fn prop() -> Prop {
     Prop {
         id: "C13",
-        describe: |_| {},
-        subs: no_subs,
-        extra: no_extra,
-        replay_extra: no_replay_extra,
-        watchdog_s: (900, 7200),
+        describe,
+        subs,
+        extra,
+        replay_extra,
+        watchdog_s: (1200, 14400),
+    }
+}
+
+/// BufWriter::new capacity: a `write_all` of fewer bytes than this stays in the buffer.
+const BUF: u64 = 8192;
+
+fn describe(ctx: &Ctx) {
+    *ctx.level.lock().unwrap() = "fault_enumeration".into();
+    ctx.rule("fault plans over (save kind in xlsx/light/csv/password) x (workbook spec below/above the 8 KiB BufWriter buffer, csv files of exactly 8191/8192/8193 bytes) x (destination absent / old content shorter / longer than the new file): fsize = RLIMIT_FSIZE N in {0,1,2,511..513,4095..4097,8191..8193,len-2..len+1} + seeded offsets (thorough: every N for files <= 9 KiB, stride otherwise); target = missing dir / destination is an (empty|non-empty) directory / temp name is a directory; kill = SIGKILL on entry of the k-th call of every traced file syscall after the save began (all k when a name occurs <= 12 times, else first/last 4 + seeded sample; thorough: up to 2500 per name); errno = k-th openat/write/lseek/rename/unlink fails; observer = reader threads during alternating saves; sink = generated (workbook, chunk size, failing call index, mode) plans. Non-trivial = the fault lands strictly inside the save (0 < N < file length; kill after the temp file was created and before the helper reported; strace marked a call INJECTED; the sink's failing call index was reached; the observer saw >= 2 different complete files); distinct by the serialised case");
+    ctx.assume("rename(2) is atomic with respect to concurrent open(2)+read(2) of the destination (kernel guarantee); instants inside one syscall are not enumerated");
+    ctx.assume("RLIMIT_FSIZE with SIGXFSZ ignored models 'disk full / size limit': the kernel accepts bytes up to offset N and fails the rest with EFBIG");
+    ctx.assume("a complete encrypted file is one whose compound-file structure validates (cfb crate), whose two streams read to the end and whose package decrypts with the password (decryptor written in the harness) to a complete zip with the same cells");
+    ctx.assume("durability after power loss (fsync) is not part of the statement and is not judged");
+}
+
+// ---------------------------------------------------------------------------------------
+// cases
+
+#[derive(Debug, Clone, PartialEq, Eq, Hash, Serialize, Deserialize)]
+pub enum Pre {
+    Absent,
+    /// destination holds `old_content(len)`
+    Old { len: u32 },
+}
+
+#[derive(Debug, Clone, PartialEq, Eq, Hash, Serialize, Deserialize)]
+pub enum Fault {
+    None,
+    Fsize { limit: u64 },
+    MissingDir,
+    DestIsDir { nonempty: bool },
+    TmpIsDir,
+    Inject(Inject),
+    /// fallback when strace is unavailable
+    TimedKill { spins: u64 },
+}
+
+#[derive(Debug, Clone, PartialEq, Eq, Hash, Serialize, Deserialize)]
+pub struct PathCase {
+    pub spec: BookSpec,
+    pub kind: SaveKind,
+    pub pre: Pre,
+    pub fault: Fault,
+}
+
+pub fn old_content(len: u32) -> Vec<u8> {
+    let mut v = Vec::with_capacity(len as usize);
+    let mut i = 0u64;
+    while v.len() < len as usize {
+        v.extend_from_slice(format!("OLD-DESTINATION-CONTENT-{:08x};", splitmix(i) as u32).as_bytes());
+        i += 1;
+    }
+    v.truncate(len as usize);
+    v
+}
+
+#[derive(Debug, Clone, PartialEq)]
+enum Snap {
+    Absent,
+    File(Vec<u8>),
+    Dir(Vec<String>),
+    Other(String),
+}
+
+fn snapshot(p: &Path) -> Snap {
+    match std::fs::symlink_metadata(p) {
+        Err(e) if e.kind() == std::io::ErrorKind::NotFound => Snap::Absent,
+        Err(e) => Snap::Other(format!("{}", e)),
+        Ok(m) if m.is_dir() => {
+            let mut names: Vec<String> = std::fs::read_dir(p)
+                .map(|rd| rd.flatten().map(|e| e.file_name().to_string_lossy().to_string()).collect())
+                .unwrap_or_default();
+            names.sort();
+            Snap::Dir(names)
+        }
+        Ok(m) if m.is_file() => match std::fs::read(p) {
+            Ok(b) => Snap::File(b),
+            Err(e) => Snap::Other(format!("unreadable: {}", e)),
+        },
+        Ok(_) => Snap::Other("special file".into()),
+    }
+}
+
+fn describe_snap(s: &Snap) -> String {
+    match s {
+        Snap::Absent => "absent".into(),
+        Snap::File(b) => format!("file of {} bytes (fnv {:016x})", b.len(), fnv(b)),
+        Snap::Dir(n) => format!("directory {:?}", n),
+        Snap::Other(e) => format!("<{}>", e),
+    }
+}
+
+/// What a healthy in-memory save of (spec, kind) looks like; computed once per pair.
+pub struct Expected {
+    pub bytes: Vec<u8>,
+    /// cell dump of the package read back (None for csv)
+    pub dump: Option<Vec<(String, u32, u32, String)>>,
+}
+
+type ExpMap = Mutex<HashMap<(BookSpec, SaveKind), Arc<Expected>>>;
+static EXPECTED: OnceLock<ExpMap> = OnceLock::new();
+
+pub fn expected(spec: &BookSpec, kind: SaveKind) -> Result<Arc<Expected>, Trouble> {
+    // Password decrypts to the plain package
+    let kind = if kind == SaveKind::Password { SaveKind::Xlsx } else { kind };
+    let map = EXPECTED.get_or_init(|| Mutex::new(HashMap::new()));
+    if let Some(e) = map.lock().unwrap().get(&(spec.clone(), kind)) {
+        return Ok(e.clone());
+    }
+    let e = Arc::new(expected_uncached(spec, kind)?);
+    map.lock().unwrap().insert((spec.clone(), kind), e.clone());
+    Ok(e)
+}
+
+/// (the generated sink cases use this directly: their specs are not worth caching)
+pub fn expected_uncached(spec: &BookSpec, kind: SaveKind) -> Result<Expected, Trouble> {
+    let bytes = match guard(|| save_to_vec(&build_book(spec), kind)) {
+        Ok(Ok(b)) => b,
+        Ok(Err(e)) => return Err(Trouble(format!("healthy in-memory save of {:?} fails: {:?}", spec, e))),
+        Err(p) => return Err(Trouble(format!("healthy in-memory save of {:?} panics: {}", spec, p.short()))),
+    };
+    let dump = if kind == SaveKind::Csv {
+        None
+    } else {
+        Some(read_complete_xlsx(&bytes).map_err(|e| Trouble(format!("healthy in-memory save of {:?} does not read back: {}", spec, e)))?)
+    };
+    Ok(Expected { bytes, dump })
+}
+
+/// Is `bytes` a complete new file for (spec, kind)?
+pub fn complete(spec: &BookSpec, kind: SaveKind, bytes: &[u8]) -> Result<Result<(), String>, Trouble> {
+    let exp = expected(spec, kind)?;
+    Ok(match kind {
+        SaveKind::Csv => {
+            if bytes == &exp.bytes[..] {
+                Ok(())
+            } else if exp.bytes.starts_with(bytes) {
+                Err(format!("only the first {} of {} bytes", bytes.len(), exp.bytes.len()))
+            } else {
+                Err(format!("{} bytes differing from the {} bytes of an in-memory save", bytes.len(), exp.bytes.len()))
+            }
+        }
+        SaveKind::Xlsx | SaveKind::Light => match read_complete_xlsx(bytes) {
+            Err(e) => Err(format!("{} bytes (in-memory save: {}): {}", bytes.len(), exp.bytes.len(), e)),
+            Ok(d) => {
+                if Some(&d) == exp.dump.as_ref() {
+                    Ok(())
+                } else {
+                    Err(format!("reads back to {} cells differing from the in-memory save's {}", d.len(), exp.dump.as_ref().map(|x| x.len()).unwrap_or(0)))
+                }
+            }
+        },
+        SaveKind::Password => match agile_decrypt(bytes, PASSWORD) {
+            Err(e) => Err(format!("{} bytes: {}", bytes.len(), e)),
+            Ok(pkg) => match read_complete_xlsx(&pkg) {
+                Err(e) => Err(format!("decrypted package of {} bytes: {}", pkg.len(), e)),
+                Ok(d) => {
+                    if Some(&d) == exp.dump.as_ref() {
+                        Ok(())
+                    } else {
+                        Err("decrypted package reads back to different cells".into())
+                    }
+                }
+            },
+        },
+    })
+}
+
+#[derive(Debug, Default, Clone)]
+pub struct Info {
+    pub nontrivial: bool,
+    pub classes: Vec<String>,
+    /// names left in the directory besides the destination
+    pub leftovers: Vec<String>,
+    /// size of the destination afterwards, if a regular file
+    pub after_len: Option<u64>,
+    /// post-BEGIN trace of the helper (dry runs)
+    pub trace: Option<Vec<TraceLine>>,
+    pub outcome: String,
+}
+
+fn fault_class(c: &PathCase, new_len: u64) -> String {
+    match &c.fault {
+        Fault::None => "healthy".into(),
+        Fault::Fsize { .. } => match c.kind {
+            SaveKind::Password => "fsize".into(),
+            _ if new_len < BUF => "fsize-fits-buffer".into(),
+            _ => "fsize-exceeds-buffer".into(),
+        },
+        Fault::MissingDir => "missing-dir".into(),
+        Fault::DestIsDir { .. } => "dest-is-dir".into(),
+        Fault::TmpIsDir => "tmp-is-dir".into(),
+        Fault::Inject(Inject::Kill { .. }) | Fault::TimedKill { .. } => "kill".into(),
+        Fault::Inject(Inject::Errno { syscall, .. }) => format!("errno-{}", syscall),
+    }
+}
+
+/// Run one path-based case end to end.  `want_trace`: run the helper under strace even
+/// without injection (dry run for the enumeration).
+pub fn check_path_case(c: &PathCase, want_trace: bool) -> Result<(Verdict, Info), Trouble> {
+    let exp = expected(&c.spec, c.kind)?;
+    let td = TempDir::new(c.kind.tag())?;
+    let dir = td.path.clone();
+    let fname = format!("book.{}", c.kind.ext());
+    let tmpname = format!("book.{}tmp", c.kind.ext());
+    let dest: PathBuf = match c.fault {
+        Fault::MissingDir => dir.join("missing").join(&fname),
+        _ => dir.join(&fname),
+    };
+    let io = |r: std::io::Result<()>| r.map_err(|e| Trouble(format!("cannot prepare {}: {}", dir.display(), e)));
+    match (&c.fault, &c.pre) {
+        (Fault::MissingDir, _) => {}
+        (Fault::DestIsDir { nonempty }, _) => {
+            io(std::fs::create_dir(&dest))?;
+            if *nonempty {
+                io(std::fs::write(dest.join("keep.txt"), b"keep"))?;
+            }
+        }
+        (_, Pre::Old { len }) => io(std::fs::write(&dest, old_content(*len)))?,
+        (_, Pre::Absent) => {}
+    }
+    if c.fault == Fault::TmpIsDir {
+        io(std::fs::create_dir(dir.join(&tmpname)))?;
+    }
+    let before = snapshot(&dest);
+    let args = HelperArgs {
+        spec: c.spec.clone(),
+        kind: c.kind,
+        path: dest.to_string_lossy().to_string(),
+        limit: match c.fault {
+            Fault::Fsize { limit } => Some(limit),
+            _ => None,
+        },
+    };
+    let tracedir = TempDir::new("trace")?;
+    let run = match &c.fault {
+        Fault::Inject(i) => run_helper(&args, Some(i), true, &tracedir.path)?,
+        Fault::TimedKill { spins } => run_helper_timed_kill(&args, *spins)?,
+        _ => run_helper(&args, None, want_trace, &tracedir.path)?,
+    };
+    let after = snapshot(&dest);
+    let mut info = Info::default();
+    if let Snap::File(b) = &after {
+        info.after_len = Some(b.len() as u64);
+    }
+    if let Ok(rd) = std::fs::read_dir(&dir) {
+        for e in rd.flatten() {
+            let n = e.file_name().to_string_lossy().to_string();
+            if n != fname && n != "missing" && !(c.fault == Fault::TmpIsDir && n == tmpname) {
+                info.leftovers.push(n);
+            }
+        }
+    }
+    let class = fault_class(c, exp.bytes.len() as u64);
+    let kind = c.kind.tag();
+    info.classes.push(format!("{}/{}", kind, class));
+    let kill_expected = matches!(c.fault, Fault::Inject(Inject::Kill { .. }) | Fault::TimedKill { .. });
+    let injected = run
+        .trace
+        .as_ref()
+        .map(|t| t.iter().any(|l| l.after_begin && l.text.contains("INJECTED")))
+        .unwrap_or(false);
+    let created_tmp = run
+        .trace
+        .as_ref()
+        .map(|t| t.iter().any(|l| l.after_begin && l.text.contains("O_CREAT")))
+        .unwrap_or(false);
+    info.trace = run.trace.clone();
+
+    let changed = |what: &str| -> Verdict {
+        Verdict::fail(
+            format!("{}/{}/{}", kind, class, what),
+            format!("destination before: {}; after: {}; leftovers {:?}", describe_snap(&before), describe_snap(&after), info.leftovers),
+        )
+    };
+    let verdict = match (&run.outcome, run.signal) {
+        (Some(Outcome::Panic { site, msg }), _) => {
+            info.outcome = "panic".into();
+            info.nontrivial = true;
+            Verdict::fail(format!("{}/{}/panic:{}", kind, class, site), format!("save panicked: {}; destination {}", msg, describe_snap(&after)))
+        }
+        (Some(Outcome::Err { text }), _) => {
+            info.outcome = "err".into();
+            if after != before {
+                let mut v = changed("err-but-destination-changed");
+                if let Verdict::Fail { detail, .. } = &mut v {
+                    detail.push_str(&format!("; returned Err({})", truncate(text, 120)));
+                }
+                v
+            } else {
+                Verdict::Pass
+            }
+        }
+        (Some(Outcome::Ok), _) => {
+            info.outcome = "ok".into();
+            match &after {
+                Snap::File(b) => match complete(&c.spec, c.kind, b)? {
+                    Ok(()) => Verdict::Pass,
+                    Err(why) => Verdict::fail(
+                        format!("{}/{}/ok-but-destination-incomplete", kind, class),
+                        format!("save returned Ok(()) but the destination is not a complete new file: {}; before: {}", why, describe_snap(&before)),
+                    ),
+                },
+                _ => changed("ok-but-destination-not-a-file"),
+            }
+        }
+        (None, Some(9)) if kill_expected => {
+            info.outcome = "killed".into();
+            if after == before {
+                Verdict::Pass
+            } else {
+                match &after {
+                    Snap::File(b) => match complete(&c.spec, c.kind, b)? {
+                        Ok(()) => Verdict::Pass,
+                        Err(why) => {
+                            let mut v = changed("destination-torn");
+                            if let Verdict::Fail { detail, .. } = &mut v {
+                                detail.push_str(&format!("; neither the old content nor a complete new file: {}", why));
+                            }
+                            v
+                        }
+                    },
+                    _ => changed("destination-torn"),
+                }
+            }
+        }
+        (None, Some(sig)) => {
+            info.outcome = "crash".into();
+            Verdict::fail(format!("{}/{}/crash:signal{}", kind, class, sig), format!("helper died with signal {} during the save; destination {}", sig, describe_snap(&after)))
+        }
+        (None, None) => {
+            return Err(Trouble(format!(
+                "helper ended without outcome: exit {:?}, began {}, stderr {}",
+                run.exit_code, run.began, run.stderr
+            )))
+        }
+    };
+    // non-triviality (DESIGN NT)
+    match &c.fault {
+        Fault::None => {}
+        Fault::Fsize { limit } => {
+            // the limit lies strictly inside the file a healthy save produces
+            let full = healthy_len(&c.spec, c.kind).unwrap_or(exp.bytes.len() as u64);
+            info.nontrivial |= *limit > 0 && *limit < full;
+        }
+        Fault::MissingDir | Fault::DestIsDir { .. } | Fault::TmpIsDir => info.nontrivial = true,
+        Fault::Inject(Inject::Kill { .. }) => info.nontrivial |= run.signal == Some(9) && run.began && created_tmp,
+        Fault::TimedKill { .. } => info.nontrivial |= run.signal == Some(9) && run.began,
+        Fault::Inject(Inject::Errno { .. }) => info.nontrivial |= injected,
+    }
+    if kill_expected && run.signal != Some(9) {
+        info.classes.push(format!("{}/kill-not-delivered", kind));
+    }
+    if kill_expected && !run.began {
+        info.classes.push(format!("{}/kill-before-begin", kind));
+    }
+    info.classes.push(format!("{}/{}/{}", kind, class, info.outcome));
+    Ok((verdict, info))
+}
+
+type LenMap = Mutex<HashMap<(BookSpec, SaveKind), u64>>;
+static HEALTHY_LEN: OnceLock<LenMap> = OnceLock::new();
+
+/// on-disk length of a healthy save (filled by the dry runs of the enumeration)
+fn healthy_len(spec: &BookSpec, kind: SaveKind) -> Option<u64> {
+    let m = HEALTHY_LEN.get_or_init(|| Mutex::new(HashMap::new()));
+    if let Some(v) = m.lock().unwrap().get(&(spec.clone(), kind)) {
+        return Some(*v);
+    }
+    if kind != SaveKind::Password {
+        return None; // the in-memory length is the on-disk length
+    }
+    // replay of a single case: measure once
+    let c = PathCase { spec: spec.clone(), kind, pre: Pre::Absent, fault: Fault::None };
+    let (_, info) = check_path_case(&c, false).ok()?;
+    let l = info.after_len?;
+    m.lock().unwrap().insert((spec.clone(), kind), l);
+    Some(l)
+}
+
+fn set_healthy_len(spec: &BookSpec, kind: SaveKind, len: u64) {
+    HEALTHY_LEN
+        .get_or_init(|| Mutex::new(HashMap::new()))
+        .lock()
+        .unwrap()
+        .insert((spec.clone(), kind), len);
+}
+
+// ---------------------------------------------------------------------------------------
+// (c) failing sink, in-process
+
+#[derive(Debug, Clone, PartialEq, Eq, Hash, Serialize, Deserialize)]
+pub struct SinkCase {
+    pub spec: BookSpec,
+    pub kind: SaveKind,
+    /// index into CHUNKS
+    pub chunk_idx: u8,
+    /// position of the failing call among the calls a healthy sink would see (monotone map)
+    pub fail_raw: u16,
+    pub mode: SinkMode,
+    pub short_raw: u16,
+    pub err_kind: u8,
+}
+
+const CHUNKS: [u32; 6] = [1 << 30, 8192, 4096, 509, 64, 7];
+
+fn sink_case(tier: Tier) -> BoxedStrategy<SinkCase> {
+    let max_rows = tier.pick(24u32, 120u32);
+    (
+        (1u8..=2, 1u32..=max_rows, 1u32..=6, 0u16..=24, any::<u32>()),
+        prop_oneof![Just(SaveKind::Xlsx), Just(SaveKind::Light), Just(SaveKind::Csv)],
+        0u8..CHUNKS.len() as u8,
+        prop_oneof![3 => any::<u16>(), 1 => Just(0u16), 1 => Just(u16::MAX)],
+        prop_oneof![
+            3 => Just(SinkMode::Error),
+            2 => Just(SinkMode::ShortThenError),
+            1 => Just(SinkMode::Short),
+            1 => Just(SinkMode::Zero),
+            1 => Just(SinkMode::InterruptedOnce)
+        ],
+        any::<u16>(),
+        0u8..ERR_KINDS.len() as u8,
+    )
+        .prop_map(|((sheets, rows, cols, text_len, seed), kind, chunk_idx, fail_raw, mode, short_raw, err_kind)| SinkCase {
+            spec: BookSpec { sheets, rows, cols, text_len, seed },
+            kind,
+            chunk_idx,
+            fail_raw,
+            mode,
+            short_raw,
+            err_kind,
+        })
+        .boxed()
+}
+
+fn mode_tag(m: SinkMode) -> &'static str {
+    match m {
+        SinkMode::Error => "error",
+        SinkMode::Short => "short",
+        SinkMode::ShortThenError => "short-then-error",
+        SinkMode::Zero => "zero",
+        SinkMode::InterruptedOnce => "interrupted-once",
+    }
+}
+
+fn check_sink(c: &SinkCase, obs: &mut Obs) -> Verdict {
+    let exp = match expected_uncached(&c.spec, c.kind) {
+        Ok(e) => e,
+        Err(t) => return Verdict::Discard(t.0),
+    };
+    let chunk = CHUNKS[c.chunk_idx as usize % CHUNKS.len()];
+    let ncalls = (exp.bytes.len() as u64).div_ceil(chunk as u64).max(1) as usize;
+    // fail_at in 0..=ncalls: the last value is past the end (fault never reached, healthy run)
+    let fail_at = pick_idx(c.fail_raw, ncalls + 1) as u32;
+    let short_len = 1 + pick_idx(c.short_raw, (chunk as usize).min(exp.bytes.len()).max(1)) as u32;
+    let plan = SinkPlan { chunk, fail_at, mode: c.mode, short_len, err_kind: c.err_kind };
+    let book = build_book(&c.spec);
+    let mut sink = FailingSink::new(plan);
+    let r = guard(|| match c.kind {
+        SaveKind::Xlsx => umya_spreadsheet::writer::xlsx::write_writer(&book, &mut sink),
+        SaveKind::Light => umya_spreadsheet::writer::xlsx::write_writer_light(&book, &mut sink),
+        SaveKind::Csv => {
+            let opt = umya_spreadsheet::structs::CsvWriterOption::default();
+            umya_spreadsheet::writer::csv::write_writer(&book, &mut sink, &opt)
+        }
+        SaveKind::Password => unreachable!(),
+    });
+    let kind = c.kind.tag();
+    let mode = mode_tag(c.mode);
+    obs.nontrivial(sink.fired);
+    obs.class(format!("{}/{}/{}", kind, mode, if sink.fired { "reached" } else { "not-reached" }));
+    obs.class(format!("calls-{}", match ncalls { 1 => "1", 2..=9 => "2-9", 10..=99 => "10-99", _ => "100+" }));
+    let delivered = sink.inner.get_ref().clone();
+    match r {
+        Err(p) => Verdict::fail(
+            format!("{}-sink/panic:{}", kind, p.site()),
+            format!("sink failing at call {} ({}) -> panic {}", fail_at, mode, p.short()),
+        ),
+        Ok(Ok(())) => {
+            if sink.hard_failed {
+                return Verdict::fail(
+                    format!("{}-sink/{}/error-swallowed", kind, mode),
+                    format!("sink failed at call {} of ~{} but the save returned Ok(()); {} of {} bytes delivered", fail_at, ncalls, delivered.len(), exp.bytes.len()),
+                );
+            }
+            // no hard failure: the data must have arrived completely
+            let okc = match c.kind {
+                SaveKind::Csv => {
+                    if delivered == exp.bytes {
+                        Ok(())
+                    } else {
+                        Err(format!("{} bytes delivered, in-memory save has {}", delivered.len(), exp.bytes.len()))
+                    }
+                }
+                _ => match read_complete_xlsx(&delivered) {
+                    Err(e) => Err(e),
+                    Ok(d) => {
+                        if Some(&d) == exp.dump.as_ref() {
+                            Ok(())
+                        } else {
+                            Err("delivered package reads back to different cells".into())
+                        }
+                    }
+                },
+            };
+            match okc {
+                Ok(()) => Verdict::Pass,
+                Err(why) => Verdict::fail(format!("{}-sink/{}/ok-but-incomplete", kind, mode), why),
+            }
+        }
+        Ok(Err(_)) => {
+            if !sink.hard_failed {
+                obs.class(format!("{}/{}/err-without-hard-failure", kind, mode));
+            }
+            Verdict::Pass
+        }
+    }
+}
+
+fn subs() -> Vec<Box<dyn DynSub>> {
+    vec![Box::new(Sub {
+        name: "sink",
+        strategy: sink_case,
+        cases: (600, 6000),
+        check: check_sink,
+        max_shrink_iters: 600,
+    })]
+}
+
+// ---------------------------------------------------------------------------------------
+// (e) concurrent observer, in-process
+
+#[derive(Debug, Clone, PartialEq, Eq, Hash, Serialize, Deserialize)]
+pub struct ObsCase {
+    pub kind: SaveKind,
+    pub spec_a: BookSpec,
+    pub spec_b: BookSpec,
+    /// number of saves (A, B, A, ...)
+    pub iterations: u32,
+    pub old_len: u32,
+    pub observers: u8,
+}
+
+pub struct ObsInfo {
+    pub reads: u64,
+    pub distinct_seen: usize,
+}
+
+pub fn check_observer(c: &ObsCase) -> Result<(Verdict, ObsInfo), Trouble> {
+    expected(&c.spec_a, c.kind)?;
+    expected(&c.spec_b, c.kind)?;
+    let td = TempDir::new("observer")?;
+    let dest = td.path.join(format!("book.{}", c.kind.ext()));
+    let old = old_content(c.old_len);
+    std::fs::write(&dest, &old).map_err(|e| Trouble(format!("cannot write {}: {}", dest.display(), e)))?;
+    let book_a = build_book(&c.spec_a);
+    let book_b = build_book(&c.spec_b);
+    let done = AtomicBool::new(false);
+    let reads = AtomicU64::new(0);
+    // complete contents: old + what the saver itself read back after each finished save
+    let complete_set: Mutex<Vec<Vec<u8>>> = Mutex::new(vec![old.clone()]);
+    let saver_fail: Mutex<Option<Verdict>> = Mutex::new(None);
+    let trouble: Mutex<Option<Trouble>> = Mutex::new(None);
+    let kind = c.kind.tag();
+    let observed: Mutex<HashMap<u64, Vec<u8>>> = Mutex::new(HashMap::new());
+    let missing = AtomicU64::new(0);
+    let other_err: Mutex<Option<String>> = Mutex::new(None);
+    std::thread::scope(|s| {
+        for _ in 0..c.observers.max(1) {
+            s.spawn(|| {
+                let mut last = false;
+                loop {
+                    if done.load(Ordering::SeqCst) {
+                        if last {
+                            break;
+                        }
+                        last = true; // one more read after the saver finished
+                    }
+                    match std::fs::read(&dest) {
+                        Ok(b) => {
+                            reads.fetch_add(1, Ordering::Relaxed);
+                            let h = fnv(&b) ^ (b.len() as u64).rotate_left(32);
+                            let mut o = observed.lock().unwrap();
+                            if !o.contains_key(&h) && o.len() < 4096 {
+                                o.insert(h, b);
+                            }
+                        }
+                        Err(e) if e.kind() == std::io::ErrorKind::NotFound => {
+                            missing.fetch_add(1, Ordering::Relaxed);
+                        }
+                        Err(e) => {
+                            *other_err.lock().unwrap() = Some(e.to_string());
+                        }
+                    }
+                }
+            });
+        }
+        s.spawn(|| {
+            for i in 0..c.iterations {
+                let (book, spec) = if i % 2 == 0 { (&book_a, &c.spec_a) } else { (&book_b, &c.spec_b) };
+                match guard(|| save_to_path(book, c.kind, &dest)) {
+                    Err(p) => {
+                        *saver_fail.lock().unwrap() =
+                            Some(Verdict::fail(format!("{}/healthy/panic:{}", kind, p.site()), format!("healthy save {} panicked: {}", i, p.short())));
+                        break;
+                    }
+                    Ok(Err(e)) => {
+                        *trouble.lock().unwrap() = Some(Trouble(format!("healthy save {} to {} failed: {:?}", i, dest.display(), e)));
+                        break;
+                    }
+                    Ok(Ok(())) => match std::fs::read(&dest) {
+                        Err(e) => {
+                            *saver_fail.lock().unwrap() = Some(Verdict::fail(
+                                format!("{}/healthy/ok-but-destination-not-a-file", kind),
+                                format!("healthy save {} returned Ok but the destination cannot be read: {}", i, e),
+                            ));
+                            break;
+                        }
+                        Ok(b) => {
+                            match complete(spec, c.kind, &b) {
+                                Err(t) => {
+                                    *trouble.lock().unwrap() = Some(t);
+                                    break;
+                                }
+                                Ok(Err(why)) => {
+                                    *saver_fail.lock().unwrap() = Some(Verdict::fail(
+                                        format!("{}/healthy/ok-but-destination-incomplete", kind),
+                                        format!("healthy save {} returned Ok but: {}", i, why),
+                                    ));
+                                    break;
+                                }
+                                Ok(Ok(())) => {}
+                            }
+                            let mut cs = complete_set.lock().unwrap();
+                            if !cs.iter().any(|x| x == &b) {
+                                cs.push(b);
+                            }
+                        }
+                    },
+                }
+            }
+            done.store(true, Ordering::SeqCst);
+        });
+    });
+    if let Some(t) = trouble.into_inner().unwrap() {
+        return Err(t);
+    }
+    let observed = observed.into_inner().unwrap();
+    let complete_set = complete_set.into_inner().unwrap();
+    let info = ObsInfo { reads: reads.load(Ordering::Relaxed), distinct_seen: observed.len() };
+    if let Some(v) = saver_fail.into_inner().unwrap() {
+        return Ok((v, info));
+    }
+    if missing.load(Ordering::Relaxed) > 0 {
+        return Ok((
+            Verdict::fail(
+                format!("{}/observer/destination-missing", kind),
+                format!("{} of the observer's opens found no destination although it existed before the saves began", missing.load(Ordering::Relaxed)),
+            ),
+            info,
+        ));
+    }
+    let mut keys: Vec<&u64> = observed.keys().collect();
+    keys.sort();
+    for k in keys {
+        let b = &observed[k];
+        if !complete_set.iter().any(|x| x == b) {
+            let prefix_of = complete_set.iter().position(|x| x.starts_with(b));
+            return Ok((
+                Verdict::fail(
+                    format!("{}/observer/torn-read", kind),
+                    format!(
+                        "observer read {} bytes that are neither the old content nor any complete file a finished save left ({} complete versions, lengths {:?}){}",
+                        b.len(),
+                        complete_set.len(),
+                        complete_set.iter().map(|x| x.len()).collect::<BTreeSet<_>>(),
+                        match prefix_of {
+                            Some(_) => "; it is a proper prefix of a complete version",
+                            None => "",
+                        }
+                    ),
+                ),
+                info,
+            ));
+        }
+    }
+    if let Some(e) = other_err.into_inner().unwrap() {
+        return Err(Trouble(format!("observer could not read the destination: {}", e)));
+    }
+    Ok((Verdict::Pass, info))
+}
+
+// ---------------------------------------------------------------------------------------
+// enumeration
+
+fn spec(rows: u32, cols: u32, text_len: u16, seed: u32) -> BookSpec {
+    BookSpec { sheets: 1, rows, cols, text_len, seed }
+}
+
+/// Model of the csv size (cells joined by ',', rows ended by CRLF) used only to *search*
+/// for specs with an exact byte length; the result is verified against the library.
+fn csv_len_model(s: &BookSpec) -> u64 {
+    let mut n = 0u64;
+    for r in 1..=s.rows {
+        for c in 1..=s.cols {
+            n += match cell_content(s, 0, r, c) {
+                CellContent::Num(v) => format!("{}", v).len() as u64,
+                CellContent::Text(t) => t.len() as u64,
+            };
+        }
+        n += (s.cols as u64 - 1) + 2;
+    }
+    n
+}
+
+/// a csv spec (one column) whose file is exactly `target` bytes long, if the search finds one
+fn csv_spec_with_len(target: u64, seed: u32) -> Option<BookSpec> {
+    for text_len in (8u16..160).rev() {
+        let mut total = 0u64;
+        let mut rows = 0u32;
+        while total < target {
+            rows += 1;
+            let probe = spec(rows, 1, text_len, seed);
+            total += match cell_content(&probe, 0, rows, 1) {
+                CellContent::Num(v) => format!("{}", v).len() as u64,
+                CellContent::Text(t) => t.len() as u64,
+            } + 2;
+        }
+        if total == target {
+            let s = spec(rows, 1, text_len, seed);
+            debug_assert_eq!(csv_len_model(&s), target);
+            return Some(s);
+        }
+    }
+    None
+}
+
+struct Combo {
+    kind: SaveKind,
+    spec: BookSpec,
+    label: &'static str,
+    /// takes part in the strace legs
+    traced: bool,
+}
+
+fn combos(seed: u64) -> Vec<Combo> {
+    let s32 = |k: u64| splitmix(seed ^ k) as u32;
+    let j = |k: u64, m: u32| (splitmix(seed.wrapping_add(k)) % m as u64) as u32;
+    let mut v = Vec::new();
+    // xlsx: ~5.5 KB (fits the buffer) and ~12 KB+
+    v.push(Combo { kind: SaveKind::Xlsx, spec: spec(2 + j(1, 3), 2, 6, s32(11)), label: "small", traced: true });
+    v.push(Combo { kind: SaveKind::Xlsx, spec: spec(40 + j(2, 8), 8, 24, s32(12)), label: "large", traced: true });
+    v.push(Combo { kind: SaveKind::Xlsx, spec: BookSpec { sheets: 2, rows: 12 + j(3, 6), cols: 3, text_len: 10, seed: s32(13) }, label: "two-sheets", traced: false });
+    // light: never below ~14 KB (stored theme), so only "above"
+    v.push(Combo { kind: SaveKind::Light, spec: spec(2 + j(4, 3), 2, 6, s32(14)), label: "small", traced: true });
+    v.push(Combo { kind: SaveKind::Light, spec: spec(30 + j(5, 8), 6, 20, s32(15)), label: "large", traced: false });
+    // csv: tiny, just below the buffer, exactly around it, well above
+    v.push(Combo { kind: SaveKind::Csv, spec: spec(2 + j(6, 3), 2, 6, s32(16)), label: "small", traced: true });
+    v.push(Combo { kind: SaveKind::Csv, spec: spec(40 + j(7, 4), 8, 20, s32(17)), label: "medium", traced: false });
+    for (t, label) in [(8191u64, "len-8191"), (8192, "len-8192"), (8193, "len-8193")] {
+        if let Some(s) = csv_spec_with_len(t, s32(18)) {
+            v.push(Combo { kind: SaveKind::Csv, spec: s, label, traced: false });
+        }
+    }
+    v.push(Combo { kind: SaveKind::Csv, spec: spec(150 + j(8, 20), 8, 24, s32(19)), label: "large", traced: true });
+    // password: compound files of ~28 KB and ~36 KB+
+    v.push(Combo { kind: SaveKind::Password, spec: spec(2 + j(9, 3), 2, 6, s32(20)), label: "small", traced: true });
+    v.push(Combo { kind: SaveKind::Password, spec: spec(48 + j(10, 8), 8, 24, s32(21)), label: "large", traced: false });
+    v
+}
+
+fn case_fp(sub: &str, c: &impl Serialize) -> u64 {
+    fnv(format!("{}|{}", sub, serde_json::to_string(c).unwrap()).as_bytes())
+}
+
+struct Leg<'a> {
+    ctx: &'a Ctx,
+    troubles: Mutex<Vec<String>>,
+    leftovers: Mutex<BTreeMap<String, u64>>,
+}
+
+impl<'a> Leg<'a> {
+    /// run the cases in parallel, judge them in list order
+    fn run(&self, sub: &str, cases: Vec<PathCase>) -> Vec<Option<Info>> {
+        let results: Vec<Result<(Verdict, Info), Trouble>> = cases.par_iter().map(|c| check_path_case(c, false)).collect();
+        let mut infos = Vec::new();
+        let mut sampled = 0;
+        for (c, r) in cases.iter().zip(results) {
+            match r {
+                Err(t) => {
+                    self.troubles.lock().unwrap().push(format!("{}: {:?}: {}", sub, c, t.0));
+                    infos.push(None);
+                }
+                Ok((v, info)) => {
+                    self.ctx.count_case(case_fp(sub, c), info.nontrivial);
+                    for cl in &info.classes {
+                        self.ctx.add_class(&format!("{}/{}", sub, cl), 1);
+                    }
+                    if !info.leftovers.is_empty() {
+                        let key = format!("{}/{}/{}", sub, info.classes.first().cloned().unwrap_or_default(), info.outcome);
+                        *self.leftovers.lock().unwrap().entry(key).or_insert(0) += 1;
+                    }
+                    if info.nontrivial && sampled < 1 {
+                        sampled += 1;
+                        self.ctx.add_sample(json!({"sub": sub, "case": c, "outcome": info.outcome}));
+                    }
+                    self.ctx.judge(sub, c, v);
+                    infos.push(Some(info));
+                }
+            }
+        }
+        infos
+    }
+}
+
+fn pick_ks(ks: &[u32], all_below: usize, edge: usize, sample: usize, seed: u64) -> Vec<u32> {
+    if ks.len() <= all_below {
+        return ks.to_vec();
+    }
+    let mut set: BTreeSet<u32> = BTreeSet::new();
+    for k in ks.iter().take(edge) {
+        set.insert(*k);
+    }
+    for k in ks.iter().rev().take(edge) {
+        set.insert(*k);
+    }
+    let mut x = seed;
+    for _ in 0..sample {
+        x = splitmix(x);
+        set.insert(ks[(x % ks.len() as u64) as usize]);
+    }
+    set.into_iter().collect()
+}
+
+fn extra(ctx: &Ctx) {
+    let thorough = ctx.tier == Tier::Thorough;
+    let leg = Leg { ctx, troubles: Mutex::new(Vec::new()), leftovers: Mutex::new(BTreeMap::new()) };
+    let combos = combos(ctx.seed);
+    let strace = strace_available();
+    let pres = |full: u64| -> Vec<Pre> { vec![Pre::Old { len: 1500 }, Pre::Absent, Pre::Old { len: (full + 20_000) as u32 }] };
+
+    // ---- healthy dry runs (traced when strace works): file lengths and syscall lists
+    let mut lens: Vec<u64> = Vec::new();
+    let mut traces: Vec<Option<Vec<TraceLine>>> = Vec::new();
+    {
+        let dry: Vec<Result<(Verdict, Info), Trouble>> = combos
+            .par_iter()
+            .map(|cb| {
+                let c = PathCase { spec: cb.spec.clone(), kind: cb.kind, pre: Pre::Old { len: 1500 }, fault: Fault::None };
+                check_path_case(&c, strace.is_ok() && cb.traced)
+            })
+            .collect();
+        for (cb, r) in combos.iter().zip(dry) {
+            let c = PathCase { spec: cb.spec.clone(), kind: cb.kind, pre: Pre::Old { len: 1500 }, fault: Fault::None };
+            match r {
+                Err(t) => {
+                    println!("HARNESS-ERROR: C13 healthy dry run failed: {}", t.0);
+                    std::process::exit(2);
+                }
+                Ok((v, info)) => {
+                    ctx.count_case(case_fp("healthy", &c), false);
+                    let Some(l) = info.after_len else {
+                        // a healthy save that leaves no file is a violation in its own right
+                        ctx.judge("fsize", &c, v);
+                        lens.push(0);
+                        traces.push(None);
+                        continue;
+                    };
+                    ctx.judge("fsize", &c, v);
+                    set_healthy_len(&cb.spec, cb.kind, l);
+                    ctx.add_class(&format!("file-size/{}/{}/{}", cb.kind.tag(), cb.label, if l < BUF { "below-8KiB" } else { "above-8KiB" }), 1);
+                    lens.push(l);
+                    traces.push(info.trace);
+                }
+            }
+        }
+    }
+
+    // ---- (a) byte-offset sweep
+    let mut fsize_cases = Vec::new();
+    let mut exhaustive_offsets = Vec::new();
+    for (i, cb) in combos.iter().enumerate() {
+        let full = lens[i];
+        if full == 0 {
+            continue;
+        }
+        let pres = pres(full);
+        let mut fixed: BTreeSet<u64> = [0u64, 1, 2, 511, 512, 513, 4095, 4096, 4097, 8191, 8192, 8193]
+            .into_iter()
+            .filter(|n| *n <= full + 1)
+            .collect();
+        for d in [full.saturating_sub(2), full.saturating_sub(1), full, full + 1] {
+            fixed.insert(d);
+        }
+        let mut generated: BTreeSet<u64> = BTreeSet::new();
+        if thorough {
+            let budget: u64 = if cb.kind == SaveKind::Password { 1500 } else { 3000 };
+            let stride = if full <= 9216 { 1 } else { (full / budget).max(1) };
+            if stride == 1 {
+                exhaustive_offsets.push(format!("{}/{} (0..={})", cb.kind.tag(), cb.label, full + 1));
+            }
+            let mut n = 0;
+            while n <= full + 1 {
+                generated.insert(n);
+                n += stride;
+            }
+        }
+        let mut x = splitmix(ctx.seed ^ 0xA11CE ^ (i as u64) << 8);
+        let want = if thorough { 200 } else if cb.kind == SaveKind::Password { 40 } else { 64 };
+        for _ in 0..want {
+            x = splitmix(x);
+            generated.insert(1 + x % full.max(2).saturating_sub(1));
+        }
+        // first a plain mid-file failure over an existing destination (the most readable witness)
+        fsize_cases.push(PathCase { spec: cb.spec.clone(), kind: cb.kind, pre: pres[0].clone(), fault: Fault::Fsize { limit: (full / 2).max(1) } });
+        generated.remove(&((full / 2).max(1)));
+        // boundary offsets with every pre-state; generated offsets with one pre-state each
+        for n in &fixed {
+            for p in &pres {
+                fsize_cases.push(PathCase { spec: cb.spec.clone(), kind: cb.kind, pre: p.clone(), fault: Fault::Fsize { limit: *n } });
+            }
+        }
+        for n in generated.difference(&fixed) {
+            let p = pres[(splitmix(*n ^ ctx.seed) % pres.len() as u64) as usize].clone();
+            fsize_cases.push(PathCase { spec: cb.spec.clone(), kind: cb.kind, pre: p, fault: Fault::Fsize { limit: *n } });
+        }
+    }
+    let n_fsize = fsize_cases.len();
+    leg.run("fsize", fsize_cases);
+
+    // ---- (b) unwritable target
+    let mut target_cases = Vec::new();
+    for cb in combos.iter().filter(|c| c.label == "small" || c.label == "large") {
+        for f in [Fault::MissingDir, Fault::DestIsDir { nonempty: false }, Fault::DestIsDir { nonempty: true }] {
+            target_cases.push(PathCase { spec: cb.spec.clone(), kind: cb.kind, pre: Pre::Absent, fault: f });
+        }
+        for p in [Pre::Absent, Pre::Old { len: 1500 }] {
+            target_cases.push(PathCase { spec: cb.spec.clone(), kind: cb.kind, pre: p, fault: Fault::TmpIsDir });
+        }
+    }
+    let n_target = target_cases.len();
+    leg.run("target", target_cases);
+
+    // ---- (d) kill sweep and (d') errno sweep
+    let mut kill_cases = Vec::new();
+    let mut errno_cases = Vec::new();
+    let mut exhaustive_kill = Vec::new();
+    let kill_mode;
+    match &strace {
+        Ok(()) => {
+            kill_mode = "strace-inject".to_string();
+            for (i, cb) in combos.iter().enumerate() {
+                let Some(tr) = &traces[i] else { continue };
+                let mut per_name: BTreeMap<String, Vec<u32>> = BTreeMap::new();
+                let mut pre_begin_one: Option<(String, u32)> = None;
+                for l in tr {
+                    if l.after_begin {
+                        per_name.entry(l.name.clone()).or_default().push(l.k);
+                    } else if l.name == "close" {
+                        pre_begin_one = Some((l.name.clone(), l.k));
+                    }
+                }
+                ctx.add_class(&format!("kill/post-begin-syscalls/{}/{}", cb.kind.tag(), cb.label), per_name.values().map(|v| v.len() as u64).sum());
+                let mut complete_here = true;
+                for (name, ks) in &per_name {
+                    let chosen = if thorough {
+                        pick_ks(ks, 2500, 600, 1300, splitmix(ctx.seed ^ fnv(name.as_bytes()) ^ i as u64))
+                    } else {
+                        pick_ks(ks, 12, 8, 40, splitmix(ctx.seed ^ fnv(name.as_bytes()) ^ i as u64))
+                    };
+                    if chosen.len() < ks.len() {
+                        complete_here = false;
+                    }
+                    for k in chosen {
+                        let old_big = Pre::Old { len: (lens[i] + 20_000) as u32 };
+                        let pre_list: Vec<Pre> = if ks.len() <= 12 { vec![Pre::Old { len: 1500 }, Pre::Absent, old_big] } else { vec![Pre::Old { len: 1500 }] };
+                        for p in pre_list {
+                            kill_cases.push(PathCase {
+                                spec: cb.spec.clone(),
+                                kind: cb.kind,
+                                pre: p,
+                                fault: Fault::Inject(Inject::Kill { syscall: name.clone(), k }),
+                            });
+                        }
+                    }
+                    // errno leg: same points for the calls that can fail in real life
+                    let plan: Option<(&str, bool)> = match name.as_str() {
+                        "openat" | "open" | "creat" => Some(("EACCES", false)),
+                        "write" | "pwrite64" => Some(("ENOSPC", true)),
+                        "lseek" => Some(("EIO", false)),
+                        "rename" | "renameat" | "renameat2" => Some(("EACCES", false)),
+                        "unlink" | "unlinkat" => Some(("EACCES", false)),
+                        "ftruncate" | "fsync" | "fdatasync" => Some(("EIO", false)),
+                        _ => None,
+                    };
+                    if let Some((errno, persistent)) = plan {
+                        let chosen = if thorough { pick_ks(ks, 400, 100, 200, splitmix(ctx.seed ^ 77 ^ i as u64)) } else { pick_ks(ks, 8, 6, 24, splitmix(ctx.seed ^ 77 ^ i as u64)) };
+                        for k in chosen {
+                            for p in [Pre::Old { len: 1500 }, Pre::Absent] {
+                                errno_cases.push(PathCase {
+                                    spec: cb.spec.clone(),
+                                    kind: cb.kind,
+                                    pre: p,
+                                    fault: Fault::Inject(Inject::Errno { syscall: name.clone(), k, errno: errno.into(), persistent }),
+                                });
+                            }
+                        }
+                    }
+                }
+                if complete_here {
+                    exhaustive_kill.push(format!("{}/{}", cb.kind.tag(), cb.label));
+                }
+                // one point before BEGIN: must be classified trivial and leave the destination alone
+                if let Some((name, k)) = pre_begin_one {
+                    kill_cases.push(PathCase {
+                        spec: cb.spec.clone(),
+                        kind: cb.kind,
+                        pre: Pre::Old { len: 1500 },
+                        fault: Fault::Inject(Inject::Kill { syscall: name, k }),
+                    });
+                }
+            }
+        }
+        Err(why) => {
+            kill_mode = format!("timed-kill-fallback ({})", why);
+            eprintln!("note: C13 kill leg falls back to timed kills, errno leg skipped: {}", why);
+            for (i, cb) in combos.iter().enumerate().filter(|(_, c)| c.traced) {
+                let mut x = splitmix(ctx.seed ^ 0xDEAD ^ i as u64);
+                for _ in 0..ctx.tier.pick(24, 400) {
+                    x = splitmix(x);
+                    let spins = x % if cb.kind == SaveKind::Password { 40_000_000 } else { 400_000 };
+                    kill_cases.push(PathCase { spec: cb.spec.clone(), kind: cb.kind, pre: Pre::Old { len: 1500 }, fault: Fault::TimedKill { spins } });
+                }
+            }
+        }
+    }
+    let (n_kill, n_errno) = (kill_cases.len(), errno_cases.len());
+    leg.run("kill", kill_cases);
+    leg.run("errno", errno_cases);
+
+    // ---- (e) concurrent observer
+    let mut obs_cases = Vec::new();
+    for kind in SaveKind::ALL {
+        let s = |k: u64| splitmix(ctx.seed ^ k ^ kind as u64) as u32;
+        let (a, b) = match kind {
+            SaveKind::Csv => (spec(900, 8, 24, s(1)), spec(500, 6, 30, s(2))),
+            _ => (spec(160, 8, 24, s(1)), spec(90, 6, 30, s(2))),
+        };
+        obs_cases.push(ObsCase {
+            kind,
+            spec_a: a,
+            spec_b: b,
+            iterations: match kind {
+                SaveKind::Password => ctx.tier.pick(12, 80),
+                _ => ctx.tier.pick(120, 1500),
+            },
+            old_len: 30_000,
+            observers: 2,
+        });
+        // and a pair that fits the buffer (xlsx, csv)
+        if matches!(kind, SaveKind::Xlsx | SaveKind::Csv) {
+            obs_cases.push(ObsCase {
+                kind,
+                spec_a: spec(2, 2, 6, s(3)),
+                spec_b: spec(3, 2, 8, s(4)),
+                iterations: ctx.tier.pick(200, 3000),
+                old_len: 3000,
+                observers: 2,
+            });
+        }
+    }
+    let obs_results: Vec<Result<(Verdict, ObsInfo), Trouble>> = obs_cases.par_iter().map(check_observer).collect();
+    let mut obs_reads = 0u64;
+    for (c, r) in obs_cases.iter().zip(obs_results) {
+        match r {
+            Err(t) => leg.troubles.lock().unwrap().push(format!("observer: {}", t.0)),
+            Ok((v, info)) => {
+                obs_reads += info.reads;
+                ctx.count_case(case_fp("observer", c), info.distinct_seen >= 2);
+                ctx.add_class(&format!("observer/{}/reads", c.kind.tag()), info.reads);
+                ctx.add_class(&format!("observer/{}/distinct-contents-seen", c.kind.tag()), info.distinct_seen as u64);
+                if info.distinct_seen >= 2 && c.kind == SaveKind::Xlsx {
+                    ctx.add_sample(json!({"sub": "observer", "case": c, "reads": info.reads, "distinct_contents_seen": info.distinct_seen}));
+                }
+                ctx.judge("observer", c, v);
+            }
+        }
+    }
+
+    ctx.set_extra(
+        "fault_legs",
+        json!({
+            "fsize_cases": n_fsize,
+            "target_cases": n_target,
+            "kill_cases": n_kill,
+            "errno_cases": n_errno,
+            "observer_cases": obs_cases.len(),
+            "observer_reads": obs_reads,
+            "kill_mode": kill_mode,
+            "exhaustive_offsets_for": exhaustive_offsets,
+            "every_post_begin_syscall_killed_for": exhaustive_kill,
+            "healthy_file_lengths": combos.iter().zip(lens.iter()).map(|(c, l)| json!({"kind": c.kind.tag(), "spec": c.label, "bytes": l})).collect::<Vec<_>>(),
+        }),
+    );
+    // leftover temp files: evidence only, never judged
+    ctx.set_extra("leftover_tmp", json!(*leg.leftovers.lock().unwrap()));
+    if thorough && strace.is_ok() {
+        ctx.exhaustive.store(true, Ordering::Relaxed);
+    }
+    let troubles = leg.troubles.lock().unwrap();
+    if !troubles.is_empty() {
+        for t in troubles.iter().take(5) {
+            println!("HARNESS-ERROR: C13 {}", truncate(t, 600));
+        }
+        println!("INCONCLUSIVE property=C13 {} cases could not be run", troubles.len());
+        std::process::exit(2);
+    }
+}
+
+fn replay_extra(_ctx: &Ctx, sub: &str, case: &Value) -> Option<Verdict> {
+    match sub {
+        "fsize" | "target" | "kill" | "errno" => {
+            let c: PathCase = match serde_json::from_value(case.clone()) {
+                Ok(c) => c,
+                Err(e) => return Some(Verdict::Discard(format!("cannot deserialise case: {}", e))),
+            };
+            Some(match check_path_case(&c, false) {
+                Ok((v, _)) => v,
+                Err(t) => Verdict::Discard(format!("harness trouble: {}", t.0)),
+            })
+        }
+        "observer" => {
+            let c: ObsCase = match serde_json::from_value(case.clone()) {
+                Ok(c) => c,
+                Err(e) => return Some(Verdict::Discard(format!("cannot deserialise case: {}", e))),
+            };
+            Some(match check_observer(&c) {
+                Ok((v, _)) => v,
+                Err(t) => Verdict::Discard(format!("harness trouble: {}", t.0)),
+            })
+        }
+        _ => None,
     }
 }
